@@ -197,7 +197,8 @@ PROPS = {
         ]
 },
     "C03": {
-        "claim": "Refinement theorem: for every item, rule list and link table with normalized relative paths and portable prefixes, the code-shaped engine accepts exactly when the specification's algorithm (Spec/Rules.lean) accepts; plus the safety clauses without hypotheses (nothing is consumed by a rule whose pattern or source prefix it does not match; an uninterpretable DISALLOW fails; DISALLOW fails iff a queued artifact matches). The model is tied to rulelib.rs by a systematic single-rule scope and random rule lists through the hooked apply_rules_on_link, with the specification verdict as oracle; glob and path-clean are specification-level models compared with the libraries.",
+        "lean_modules": ["InTotoModel.Props.C03", "InTotoModel.Props.Spec"],
+        "claim": "Refinement theorem: for every item, rule list and link table with normalized relative paths and portable prefixes, the code-shaped engine accepts exactly when the specification's algorithm (Spec/Rules.lean) accepts; inside the pipeline (Props/Spec.lean, from the refinement of the whole verification): the rules of every inspection are decided on one table that holds the link of every step and of EVERY inspection - listed earlier or later -, and two layouts that differ only in the order of their (distinctly named) inspections are accepted alike; tied to the code by an end-to-end lane (rules of steps and inspections edited inside accepted scenarios, the decision compared with the Lean specification over the links recorded for all items); plus the safety clauses without hypotheses (nothing is consumed by a rule whose pattern or source prefix it does not match; an uninterpretable DISALLOW fails; DISALLOW fails iff a queued artifact matches). The model is tied to rulelib.rs by a systematic single-rule scope and random rule lists through the hooked apply_rules_on_link, with the specification verdict as oracle; glob and path-clean are specification-level models compared with the libraries.",
         "level_note": "Trusted: Lean kernel; Spec/Rules.lean is my transcription of the in-toto v0.9 rule algorithm; glob 0.3.4 and path-clean 1.0.1 behaviour are library specs validated differentially; the refinement theorem is relative to these library models.",
         "technique": 'Lean 4 theorems about an executable model + model/implementation correspondence check (differential run with property oracle)',
         "rule": "ops = rules(item, link table) through the hooked apply_rules_on_link, glob(pattern, text) and clean(path) against the libraries; oracle = the Lean specification verdict (rulespec) on normalized scenarios; distinct = distinct op; non-trivial = the item has rules and its link exists (gets past the lookup guard)",
